@@ -206,9 +206,9 @@ func lemma_block_no_leak(i *ignore, meta *ast.Meta) {
 //@ func unignoreRules [C12]
 //@   callers [C12] SetupStatement SetupBlockStatement TeardownStatement TeardownBlockStatement
 //@ func (*ignore).SetupStatement [C12]
-//@   callers [C12] lintStatement lintBlockStatement$1 lemma_statement_no_leak
+//@   callers [C12] lintStatement lintBlockStatement$2 lemma_statement_no_leak
 //@ func (*ignore).TeardownStatement [C12]
-//@   callers [C12] lintStatement lintBlockStatement$1 lemma_statement_no_leak
+//@   callers [C12] lintStatement lintBlockStatement$2 lemma_statement_no_leak
 //@ func (*ignore).SetupBlockStatement [C12]
 //@   callers [C12] lintBlockStatement lemma_block_no_leak
 //@ func (*ignore).TeardownBlockStatement [C12]
@@ -230,7 +230,7 @@ func lemma_block_no_leak(i *ignore, meta *ast.Meta) {
 //@   ensures [linter-keeps-its-ignore] l.ignore == old(l.ignore)
 //@   ensures [ignore-sets-untouched] unchanged(l.ignore.ignoreNextLine.all) && unchanged(l.ignore.ignoreNextLine.rules) && unchanged(l.ignore.ignoreThisLine.all) && unchanged(l.ignore.ignoreThisLine.rules) && unchanged(l.ignore.ignoreRange.all) && unchanged(l.ignore.ignoreRange.rules)
 
-//@ func (*Linter).lintBlockStatement$1 [C12]
+//@ func (*Linter).lintBlockStatement$2 [C12]
 //@   dispatch GetMeta
 //@   requires l != nil && okIgnore(l.ignore)
 //@   preserves F:ast.Meta. F:ast.Comment. E:*ast.Comment .Meta: E:linter.Rule
@@ -241,11 +241,12 @@ func lemma_block_no_leak(i *ignore, meta *ast.Meta) {
 
 //@ func (*Linter).lintBlockStatement [C12]
 //@   requires l != nil && okIgnore(l.ignore) && block != nil
-//@   preserves F:ast.Meta. F:ast.Comment. E:*ast.Comment .Meta: E:linter.Rule
 //@   loop 1 invariant l.ignore == old(l.ignore) && okIgnore(l.ignore)
-//@   loop 1 invariant forall r Rule :: l.ignore.ignoreNextLine.rules[r] ==> old(l.ignore.ignoreNextLine.rules[r]) || nextAdd(block.Meta, len(block.Meta.Leading), r)
-//@   loop 1 invariant l.ignore.ignoreNextLine.all ==> old(l.ignore.ignoreNextLine.all) || nextAny(block.Meta, len(block.Meta.Leading))
-//@   loop 1 invariant (l.ignore.ignoreThisLine.all ==> old(l.ignore.ignoreThisLine.all)) && (forall r Rule :: l.ignore.ignoreThisLine.rules[r] ==> old(l.ignore.ignoreThisLine.rules[r]))
+//@   preserves F:ast.Meta. F:ast.Comment. E:*ast.Comment .Meta: E:linter.Rule
+//@   loop 2 invariant l.ignore == old(l.ignore) && okIgnore(l.ignore)
+//@   loop 2 invariant forall r Rule :: l.ignore.ignoreNextLine.rules[r] ==> old(l.ignore.ignoreNextLine.rules[r]) || nextAdd(block.Meta, len(block.Meta.Leading), r)
+//@   loop 2 invariant l.ignore.ignoreNextLine.all ==> old(l.ignore.ignoreNextLine.all) || nextAny(block.Meta, len(block.Meta.Leading))
+//@   loop 2 invariant (l.ignore.ignoreThisLine.all ==> old(l.ignore.ignoreThisLine.all)) && (forall r Rule :: l.ignore.ignoreThisLine.rules[r] ==> old(l.ignore.ignoreThisLine.rules[r]))
 //@   ensures [linter-keeps-its-ignore] l.ignore == old(l.ignore) && okIgnore(l.ignore)
 //@   ensures [next-line-only-shrinks] (l.ignore.ignoreNextLine.all ==> old(l.ignore.ignoreNextLine.all)) && (forall r Rule :: l.ignore.ignoreNextLine.rules[r] ==> old(l.ignore.ignoreNextLine.rules[r]))
 //@   ensures [this-line-only-shrinks] (l.ignore.ignoreThisLine.all ==> old(l.ignore.ignoreThisLine.all)) && (forall r Rule :: l.ignore.ignoreThisLine.rules[r] ==> old(l.ignore.ignoreThisLine.rules[r]))
@@ -254,7 +255,9 @@ func lemma_block_no_leak(i *ignore, meta *ast.Meta) {
 // ---- C11: include resolution is bounded ---------------------------------------------------------------------
 // resolveIncludeStatements and resolveFileInclusion call each other once per nested include; the
 // recursion needs a measure that decreases at every call.
-//@ pred okDepth(l *Linter) = l != nil && l.ignore != nil && l.includeDepth >= 0 && l.includeDepth <= maxIncludeDepth
+// (2^62: far above any real nesting; keeps `includeDepth + 1` away from wrap-around. The counter may
+// exceed maxIncludeDepth by the block nesting of the program: beyond the limit nothing is included.)
+//@ pred okDepth(l *Linter) = l != nil && l.ignore != nil && l.includeDepth >= 0 && l.includeDepth <= 4611686018427387904
 
 //@ func (*Linter).resolveIncludeStatements [C11]
 //@   recursion-bounded [C11]
@@ -270,6 +273,26 @@ func lemma_block_no_leak(i *ignore, meta *ast.Meta) {
 //@   decreases maxIncludeDepth - l.includeDepth
 //@   rank 1
 //@   ensures [depth-restored] l.includeDepth == old(l.includeDepth) && l.ignore == old(l.ignore)
+
+// Statements included from inside a block are linted one include level deeper (so that a module which
+// includes itself from one of its own blocks reaches the limit), and every lint function leaves the
+// depth counter as it found it: induction over the call graph, the only writers being the four
+// functions below, each proved to restore it.
+//@ func (*Linter).lint [C11]
+//@   by-induction [C11] every lint function leaves the include depth counter as it found it; only resolveFileInclusion and lintBlockStatement (and their deferred closures) write it and both restore it
+//@   ensures [depth-kept C11] l.includeDepth == old(l.includeDepth)
+//@   only-writers [C11] F:linter.Linter.includeDepth : resolveFileInclusion resolveFileInclusion$1 lintBlockStatement lintBlockStatement$1
+
+//@ func (*Linter).lintBlockStatement$2 [C11]
+//@   requires l != nil && c != nil
+//@   ensures [depth-kept C11] l.includeDepth == old(l.includeDepth)
+
+//@ func (*Linter).lintBlockStatement [C11]
+//@   requires okDepth(l) && l.includeDepth < 4611686018427387904 && block != nil
+//@   ensures [depth-restored C11] l.includeDepth == old(l.includeDepth)
+//@   callassert [included-statements-one-level-deeper C11] resolveIncludeStatements: (exists k int :: 0 <= k && k < len(block.Statements) && is(block.Statements[k], *ast.IncludeStatement)) ==> l.includeDepth == old(l.includeDepth) + 1
+//@   loop 1 invariant l.includeDepth == old(l.includeDepth) && !hasInclude && (forall k int :: 0 <= k && k <= rangeindex ==> !is(block.Statements[k], *ast.IncludeStatement))
+//@   loop 2 invariant l.includeDepth == old(l.includeDepth) + b2i(hasInclude)
 
 // the sweep: no reachable panic in any function of the package, for any (well-formed) syntax tree
 //@ forall-funcs .* [C11]
